@@ -86,7 +86,11 @@ CMDS = [  # (name, letter, signed?, call(g, v))
 def values(rng, signed, n):
     out = [0.0, -0.0, 1e15 if signed else 1e15, 5e-324, 2.2250738585072014e-308, 0.5, 0.05, 0.005, 0.0005, 0.00005, 5e-06, 0.125, 0.375,
            2.5, 1.5, 127.5, 254.9995, 200.125, 0.15, 0.25, 0.35, 1.005, 2.675, 9.995, 99.9995, 999999.9999995, 1, 7, 10 ** 15, np.float32(0.1), np.float64(1e-7),
-           np.int64(42), 123456789.123456789, 1e-10, 0.1 + 0.2, 1 / 3, 2 / 3, 1e22 if False else 1e14 + 0.5]
+           np.int64(42), 123456789.123456789, 1e-10, 0.1 + 0.2, 1 / 3, 2 / 3, 1e22 if False else 1e14 + 0.5,
+           # numpy scalars that are NOT Python floats, small enough for str() to choose exponent notation, and non-finite ones
+           # (added after seed C08e); a command whose signature refuses the type simply does not count
+           np.float32(1e-5), np.float32(3.5e-7), np.float16(0.0001), np.longdouble(1e-6), np.float32(12345.678),
+           np.float32("nan"), np.float32("inf"), np.int32(7), np.uint8(200)]
     for _ in range(n):
         mag = rng.uniform(-12, 15)
         out.append(rng.uniform(1, 10) * 10 ** mag)
@@ -122,10 +126,12 @@ def run_case(cfg, cmd, v, live=None):
     except Exception as e:
         res = type(e).__name__
     out = b"".join(rw.take())
-    nonfinite = isinstance(v, float) and (v != v or v in (math.inf, -math.inf))
+    notnum = isinstance(v, (float, np.floating)) and not math.isfinite(float(v))
+    # a signature that refuses the TYPE (np.float32 where a float is declared) is outside the property
+    nonfinite = notnum and res != "TypeCheckError"
     lab = dict(zip("XYZ", cfg["labels"])).get(letter, letter)
     zero = {"neg": False, "ip": [0], "fp": []}
-    return {"cmd": name, "letters": list(lab.encode()), "x": zero if nonfinite else exact_of(v), "ulp": zero if nonfinite else ulp_of(v),
+    return {"cmd": name, "letters": list(lab.encode()), "x": zero if notnum else exact_of(v), "ulp": zero if notnum else ulp_of(v),
             "nonfinite": nonfinite, "out": list(out), "res": res, "repr": repr(v), "dp": cfg["dp"]}
 
 
@@ -183,7 +189,7 @@ class P(flow.Plan):
                     vals = values(rng, cmd[2], n)
                     vals += [float("nan"), float("inf"), float("-inf")]
                     for v in vals:
-                        if not cmd[2] and isinstance(v, (int, float)) and not (v != v) and v < 0:
+                        if not cmd[2] and isinstance(v, (int, float, np.number)) and not (v != v) and v < 0:
                             continue
                         ev.append(run_case(cfg, cmd, v))
                 traces.append({"meta": meta_of(cfg), "ev": ev})
